@@ -12,8 +12,7 @@
    GNU ld and ld.lld link the same inputs: a case counts against wild only if a reference linker
    supports the rule; if both agree with each other against the rule the run is a tool error.
 """
-from vlib import symres, tlc
-from vlib.common import ToolError, build_wild, log, trim_samples
+from vlib import symres
 
 PROP = "C02"
 META = {
@@ -24,50 +23,7 @@ META = {
     "level_note": "Bounds: <= 3 files, one name per C02 family (two in the C03 families), x86-64, non-PIE executables, data symbols, no COMDAT groups, no symbol versions. Which shared object provides a dynamic definition is not observed (only that the reference is dynamic). Cases where GNU ld and lld disagree with each other and neither supports the rule are not judged.",
     "engine": "tlc",
 }
-EXPECTED_ACTIONS = ["Start", "PeekAny", "TakeAny", "Finish"]
 ASPECTS = ("error", "bind")
-
-
-def tlc_records(cfg, timeout, workers=8):
-    """Exhaustive TLC run of one bounded family; returns (result, deduplicated REPLAY records).
-    (-coverage makes TLC an order of magnitude slower on this module, so action coverage is
-    established separately by coverage_run on a tiny family.)"""
-    r = tlc.run_tlc("MCSymRes", cfg, workers=workers, timeout=timeout, coverage=False)
-    if r.timed_out:
-        raise ToolError(f"TLC timed out on {cfg}")
-    if not r.ok:
-        raise ToolError(f"SymRes model check failed ({cfg}): {r.violated} {r.error_text}\n{r.out[-3000:] if not r.trace_text else r.trace_text[:3000]}")
-    seen, recs = set(), []
-    for rec in r.records:
-        k = repr(sorted(rec["files"], key=repr) if False else rec["files"]) + repr(rec["opts"])
-        if k in seen:
-            continue
-        seen.add(k)
-        recs.append(rec)
-    if not recs:
-        raise ToolError(f"no REPLAY records from {cfg}")
-    return r, recs
-
-
-def coverage_run(cfg="mc/SymRes_cover.cfg"):
-    r = tlc.run_tlc("MCSymRes", cfg, workers=4, timeout=600, coverage=True)
-    if not r.ok:
-        raise ToolError(f"coverage run failed: {r.violated} {r.error_text}")
-    missing = tlc.zero_coverage_actions(r, EXPECTED_ACTIONS)
-    if missing:
-        raise ToolError(f"vacuous model: actions never taken: {missing}")
-    return {"cfg": cfg, **r.summary(), "action_coverage": {a: r.coverage[a][1] for a in EXPECTED_ACTIONS}}
-
-
-def racy_must_fail(cfg="mc/SymRes_racy.cfg"):
-    r = tlc.run_tlc("MCSymRes", cfg, workers=4, timeout=600, coverage=False)
-    if r.ok or r.violated != "LoadedOnce":
-        raise ToolError(f"racy variant of the take was NOT caught (violated={r.violated}): invariants are vacuous")
-    return {"cfg": cfg, "expected_violation": r.violated, "states_to_find": r.distinct}
-
-
-def sample(recs, seed, k):
-    return [(i, rec) for i, rec in enumerate(recs) if (i + seed) % k == 0]
 
 
 def oracle_known(info):
@@ -81,33 +37,10 @@ def oracle_known(info):
 
 
 def run(ctx):
-    cov = {"samples": []}
-    build_wild()
-    plan = [("mc/SymRes_c02_quick.cfg", 900, 4 if ctx.quick else 1), ("mc/SymRes_c02_dup.cfg", 600, 2 if ctx.quick else 1)]
+    plan = [("mc/SymRes_c02_quick.cfg", 900, 5 if ctx.quick else 1), ("mc/SymRes_c02_dup.cfg", 600, 2 if ctx.quick else 1)]
     if not ctx.quick:
-        plan.append(("mc/SymRes_c02_triple.cfg", 2400, 5))
-    states = trans = replayed = 0
-    runs = []
-    agg = {}
-    for cfg, to, k in plan:
-        r, recs = tlc_records(cfg, to)
-        states += r.distinct
-        trans += r.generated
-        chosen = sample(recs, ctx.seed, k)
-        log(f"{cfg}: {r.distinct} states, {len(recs)} configurations, replaying {len(chosen)}")
-        st = symres.replay_records(ctx, PROP, chosen, ASPECTS, "both", jobs=8, known_oracle_classes=oracle_known,
-                                   label=cfg.split("_")[-1].split(".")[0])
-        replayed += st["replayed"]
-        runs.append({"cfg": cfg, **r.summary(), "configurations": len(recs), "replayed": st["replayed"],
-                     **{kk: vv for kk, vv in st.items() if kk not in ("samples", "replayed")}})
-        cov["samples"] += st["samples"]
-    runs.append(coverage_run())
-    runs.append(racy_must_fail())
-    cov["states"] = states
-    cov["transitions"] = trans
-    cov["traces_validated_against_impl"] = replayed
-    cov["tlc_runs"] = runs
-    cov["samples"] = trim_samples(cov["samples"], 3, 900)
+        plan.append(("mc/SymRes_c02_triple.cfg", 2400, 1))
+    cov = symres.run_plan(ctx, PROP, plan, ASPECTS, "both", oracle_known, skip_load_divergent=True)
     return {
         "level": "model_checking",
         "coverage": cov,
